@@ -33,6 +33,47 @@ class Violation(Exception):
         self.case = case
 
 
+class CaseTimeout(BaseException):
+    """one case ran longer than the per-case limit (not an Exception, so
+    that neither the checks nor ``guard`` swallow it)"""
+
+
+def _on_alarm(signum, frame):
+    raise CaseTimeout()
+
+
+class time_limit:
+    """per-case watchdog (SIGALRM, main thread of a worker process).  A case
+    that exceeds it is counted as 'no verdict' and the run goes on: on a
+    broken tree a comparison may loop for ever, and the other cases still
+    have to be looked at."""
+
+    def __init__(self, seconds):
+        self.seconds = int(seconds)
+        self.old = None
+
+    def __enter__(self):
+        import signal
+        import threading
+        if self.seconds > 0 and \
+                threading.current_thread() is threading.main_thread():
+            self.old = signal.signal(signal.SIGALRM, _on_alarm)
+            signal.alarm(self.seconds)
+        return self
+
+    def __exit__(self, et, ev, tb):
+        import signal
+        if self.old is not None:
+            signal.alarm(0)
+            signal.signal(signal.SIGALRM, self.old)
+        return False
+
+
+def case_limit(tier):
+    return int(os.environ.get("VP_CASE_SECONDS")
+               or (90 if tier == "quick" else 240))
+
+
 class HarnessError(Exception):
     pass
 
@@ -357,7 +398,12 @@ class Ctx:
             def test(case):
                 executed[0] += 1
                 try:
-                    check(case)
+                    with time_limit(case_limit(ctx.tier)):
+                        check(case)
+                except CaseTimeout:
+                    ctx.exclude("case-exceeded-the-time-limit")
+                    ctx.extra["case_timeouts"] = ctx.extra.get(
+                        "case_timeouts", 0) + 1
                 except Violation as v:
                     if ctx.handle(v, case):
                         raise
@@ -393,7 +439,10 @@ class Ctx:
 
         def still_fails(c):
             try:
-                check(c)
+                with time_limit(case_limit(self.tier)):
+                    check(c)
+            except CaseTimeout:
+                return False
             except Violation as v:
                 if v.sig == sig:
                     last[0] = v.msg
@@ -418,7 +467,12 @@ class Ctx:
     # ---- plain driver for replays / enumerations -----------------------
     def run_case(self, check, case):
         try:
-            check(case)
+            with time_limit(case_limit(self.tier)):
+                check(case)
+        except CaseTimeout:
+            self.exclude("case-exceeded-the-time-limit")
+            self.extra["case_timeouts"] = self.extra.get(
+                "case_timeouts", 0) + 1
         except Violation as v:
             self.fail_now(v, case)
         except HarnessError:
